@@ -87,6 +87,7 @@ Clauses(T, e, gonePrev) ==
           cost     |-> e.post.cost = e.pre.cost + CostOf(T, e.req),
           ret      |-> e.ret = Guard(T, e.post),
           sactive  |-> sm[1], sargmax |-> sm[2], sdistinct |-> sm[3],
+          modeled  |-> e.modeled,          \* (scripted runs) every design active at modelling time displays this round's posterior
           flatp    |-> IF Fam(T.alg) # "flat" THEN TRUE            \* NaiveElimination / DecoupledGP: reported P = exact Pareto set of the current mean estimates
                        ELSE \E X \in SUBSET ToSet(e.flat.amb) :
                               { i \in 1..T.n : ~ \E j \in 1..T.n : <<j,i>> \in (ToSet(e.flat.sd) \cup X) } = ToSet(e.flat.P),
